@@ -50,14 +50,14 @@ def dose_arg(ctx, doses, how, tag):
         with open(path, "w") as fh:
             fh.write(",CorrectedDose,Removed\n")
             for i, d in enumerate(doses):
-                fh.write("%d,%.2f,False\n" % (2 * i, d))
+                fh.write("%d,%.3f,False\n" % (2 * i, d))
                 if i == 0:
                     fh.write("%d,%.2f,True\n" % (2 * i + 1, 77.0))
         return path
     path = os.path.join(ctx.workdir, "dose_%s.txt" % tag)
     with open(path, "w") as fh:
         for d in doses:
-            fh.write("%.2f\n" % d)
+            fh.write("%.3f\n" % d)
     return path
 
 
@@ -159,7 +159,7 @@ def measure(ctx, case):
     """Runs dose_filter on the probes of one case and projects the observations (no verdict here)."""
     import random
     W, H, n, px = case["W"], case["H"], case["n"], case["px"]
-    d = [x / 100.0 for x in case["d100"]]
+    d = [x / 1000.0 for x in case["d1000"]] if case.get("d1000") else [x / 100.0 for x in case["d100"]]
     how = case["doses_as"]
     rng = random.Random(case["mseed"])
     nprng = np.random.default_rng(case["mseed"])
@@ -192,6 +192,12 @@ def measure(ctx, case):
     iy = np.array([k[1] % H for k in ents])
     t["ent"] = [list(k) for k in ents]
     t["A"] = exponents(G)[:, ix, iy].tolist()
+    # near-equal doses: the log ratio of the two gains at the frequency with the largest radial key (x1e9)
+    t["near"] = []
+    for (i, j) in case.get("near", []):
+        gi, gj = float(G[i, ix[-1], iy[-1]].real), float(G[j, ix[-1], iy[-1]].real)
+        nl = math.log(gi / gj) * 1e9 if gi > 0 and gj > 0 else float("nan")
+        t["near"].append({"i": i + 1, "j": j + 1, "dd": int(round((d[j] - d[i]) * 1e6)), "nl": clampi(nl)})
     # random images: agreement with the impulse gains (linear, diagonal in Fourier space), mean, linearity
     R = nprng.normal(size=(W, H, n)) + nprng.uniform(-2, 2)
     R2 = nprng.normal(size=(W, H, n))
@@ -426,6 +432,22 @@ def int_px_case(rng, px, spelling, i):
             "d100": [int(round(x * 100)) for x in rand_doses(rng, n, lo=50.0, need_big=True, mode="distinct")]}
 
 
+def near_dose_case(rng, i):
+    """Doses that differ by 1e-3 / 5e-3 e/A^2 inside one stack (three decimals), small enough that nothing saturates."""
+    case = rand_case(rng, wh_lo=4, wh_hi=12, nmin=2, nmax=6, comp=False, doses_as=["array", "list", "file", "csv"][i % 4],
+                     form=FORMS[i % len(FORMS)], force_grid=False)
+    n = case["n"]
+    base = [[12498, 12503], [100001, 100004], [5000, 5001], [19990, 19995]][i % 4]
+    d1000 = [int(rng.uniform(1.0, 20.0) * 1000) for _ in range(n)]
+    a, b = rng.sample(range(n), 2)
+    d1000[a], d1000[b] = base[0], base[1]
+    case["d1000"] = d1000
+    case["d100"] = [int(round(x / 10.0)) for x in d1000]
+    case["near"] = [[a, b]]
+    case.pop("d2_100", None)
+    return case
+
+
 def rand_case(rng, wh_lo=4, wh_hi=64, nmax=10, area_cap=None, force_grid=None, comp=None, nmin=1, dose_mode=None,
               doses_as=None, form=None):
     while True:
@@ -537,6 +559,9 @@ def run(ctx):
             # integer pixel sizes 1, 2, 10 (and 4, 5) as int / np.int32 / np.int64, judged by the calibration clause
             for i, (pxi, sp) in enumerate([(1, "int"), (2, "npi64"), (10, "npi32"), (5, "int"), (4, "npi32"), (10, "int")]):
                 cases.append(int_px_case(rng, pxi, sp, i))
+            # doses of two images differing by 1e-3 / 5e-3 e/A^2 (12.498 / 12.503, 100.001 / 100.004 ...)
+            for i in range(6):
+                cases.append(near_dose_case(rng, i))
             for c in cases:
                 c["pw_max"] = 16
         else:
@@ -551,6 +576,8 @@ def run(ctx):
                                        comp=(i % 3 == 0)))
             for i in range(40):
                 cases.append(int_px_case(rng, [1, 2, 10, 5, 4][i % 5], ["int", "npi32", "npi64"][i % 3], i))
+            for i in range(60):
+                cases.append(near_dose_case(rng, i))
             for i in range(90):
                 mode = ["constant", "multiples", "zero_middle", "ramp_down", "few_values", "ramp_up"][i % 6]
                 cases.append(rand_case(rng, area_cap=900, nmin=2, force_grid=(i % 2 == 0), dose_mode=mode,
